@@ -802,12 +802,13 @@ def digitize(a, bins, right=False):
 
 
 def _searchsorted_block(x, y, side):
-    res = np.searchsorted(x, y, side=side)
+    # np.searchsorted returns a scalar for a 0-d y
+    res = np.asarray(np.searchsorted(x, y, side=side))
     # 0 is only correct for the first block of a, but blockwise doesn't have a way
     # of telling which block is being operated on (unlike map_blocks),
     # so set all 0 values to a special value and set back at the end of searchsorted
-    res[res == 0] = -1
-    return res[np.newaxis, :]
+    res = np.where(res == 0, -1, res)
+    return res[np.newaxis]
 
 
 @derived_from(np)
